@@ -93,7 +93,11 @@ def step (st : St) (ws : List String) : St × String :=
   if needsInst (ws.headD "") && (match ws with | _ :: k :: _ => (st.insts.lookup (nat! k)).isNone | _ => true) then (st, "noinst") else
   if ws.headD "" == "inst" && st.genesis.isEmpty then (st, "novals") else
   match ws with
-  | "vals" :: ps => ({ st with genesis := parsePairs ps }, "ok")
+  | "vals" :: ps =>
+    -- pos.ValidatorsBuilder.Build panics when the total weight exceeds 2^31-1
+    if (Model.Pos.build ((parsePairs ps).foldl (fun b p => Model.Pos.set b p.1 p.2) [])).isNone then
+      ({ st with genesis := [] }, "panic validators weight overflow")
+    else ({ st with genesis := parsePairs ps }, "ok")
   | "seal" :: e :: f :: ps => ({ st with seals := ((nat! e, nat! f), parsePairs ps) :: st.seals }, "ok")
   | ["inst", k, _] =>
     let i := Inst.fresh 1 st.genesis
